@@ -1,0 +1,66 @@
+//go:build verif
+
+package raft
+
+import "time"
+
+// VerifNodeState describes a node state to be installed by VerifSetState.
+type VerifNodeState struct {
+	State             State
+	Term              uint64
+	VotedFor          string
+	CommitIndex       uint64
+	LastApplied       uint64
+	LastIncludedIndex uint64
+	LastIncludedTerm  uint64
+	LeaderID          string
+	Configuration     *Configuration
+	Committed         *Configuration
+	// the log: placeholder (index, term) followed by entries
+	PlaceholderIndex uint64
+	PlaceholderTerm  uint64
+	Entries          []*LogEntry
+	// time since the last contact and remaining validity of the lease
+	ContactAge     time.Duration
+	LeaseRemaining time.Duration
+}
+
+// VerifSetState puts a node that was created with NewRaft (and not started)
+// into the described state. The log is rebuilt through the Log interface; term
+// and vote are persisted through the state storage.
+func VerifSetState(r *Raft, s VerifNodeState) error {
+	r.mu.Lock()
+	defer r.mu.Unlock()
+	if err := r.log.DiscardEntries(s.PlaceholderIndex, s.PlaceholderTerm); err != nil {
+		return err
+	}
+	if len(s.Entries) > 0 {
+		if err := r.log.AppendEntries(s.Entries); err != nil {
+			return err
+		}
+	}
+	r.state = s.State
+	r.currentTerm = s.Term
+	r.votedFor = s.VotedFor
+	if err := r.stateStorage.SetState(s.Term, s.VotedFor); err != nil {
+		return err
+	}
+	r.commitIndex = s.CommitIndex
+	r.lastApplied = s.LastApplied
+	r.lastIncludedIndex = s.LastIncludedIndex
+	r.lastIncludedTerm = s.LastIncludedTerm
+	r.leaderID = s.LeaderID
+	r.configuration = s.Configuration
+	r.committedConfiguration = s.Committed
+	r.followers = make(map[string]*follower)
+	if s.Configuration != nil {
+		for id := range s.Configuration.Members {
+			r.followers[id] = new(follower)
+		}
+	}
+	r.operationManager = newOperationManager(r.options.leaseDuration)
+	r.operationManager.leaderLease.expiration = time.Now().Add(s.LeaseRemaining)
+	r.lastContact = time.Now().Add(-s.ContactAge)
+	r.resetSnapshotFiles()
+	return nil
+}
